@@ -922,16 +922,30 @@ func runBridge(c caseIn) *bridgeOut {
 		// nobody attaches: Start() gives up after its own 30 s wait (the table ttl of this case is longer)
 		limit = 40 * time.Second
 		ev("waiting for the Start timeout")
-	case "duplicate":
+	case "duplicate", "dupother":
+		// a second TunnelOpen for the id whose source is waiting passed handleTunnelOpen's checks (client retry on a second
+		// connection, interleaved) and reaches the REAL handleSourceBridge -> startSourceBridge, which refuses it:
+		// "duplicate": on the same node (bridge already exists); "dupother": on ANOTHER node whose open fails (mapping unknown there)
 		s2, c2 := net.Pipe()
-		err := session.VerifStartSourceBridge(sm, tid, mid+"-dup", "other-secret", s2)
+		go io.Copy(io.Discard, c2)
+		dupSM, dupMap := sm, mid+"-dup"
+		if c.Way == "dupother" {
+			dupSM = session.NewSessionManager(idgen.NewIDManager(memory.New(ctxA), ctxA), ctxA)
+			dupSM.SetNodeID("node-b")
+			dupSM.SetCloudControl(&fakeCloud{m: map[string]*models.PortMapping{}})
+			dupSM.SetTunnelRoutingTable(w.tables[1])
+			dupMap = mid
+		}
+		dc, derr := dupSM.CreateConnection(s2, s2)
+		must(derr)
+		err := session.VerifHandleSourceBridge(dupSM, tid, dupMap, "other-secret", dc, s2)
 		s2.Close()
 		c2.Close()
 		if err == nil {
 			fail("bridge-duplicate-accepted", fmt.Sprintf("a second startSourceBridge for the waiting tunnel %s was accepted", short(tid)))
 		}
-		ev("duplicate start: %v", err)
-		mustWait("after a rejected duplicate start")
+		ev("duplicate open (%s): %v", c.Way, err)
+		mustWait("after a refused duplicate open (" + c.Way + ")")
 		if session.VerifBridge(sm, tid) != b {
 			fail("bridge-duplicate-replaced", "the rejected duplicate start replaced the indexed bridge")
 		}
@@ -1349,7 +1363,16 @@ func runForward(c caseIn) *forwardOut {
 					_ = ft
 					hits <- fwdHit{listener: k, tunnel: tid, from: from}
 					cn.SetReadDeadline(time.Time{})
-					io.Copy(io.Discard, cn)
+					// a connection that is (wrongly) reused for another forward announces that tunnel here too
+					for {
+						_, _, more, err := session.ReadFrameFromReader(cn)
+						if err != nil {
+							return
+						}
+						if t2, f2, derr := session.DecodeTargetReadyMessage(more); derr == nil {
+							hits <- fwdHit{listener: k, tunnel: t2, from: f2}
+						}
+					}
 				}(cn)
 			}
 		}(k, l)
@@ -1425,6 +1448,46 @@ func runForward(c caseIn) *forwardOut {
 			cli.Close()
 			srv.Close()
 			_ = w.tables[0].RemoveWaitingTunnel(bg, tid)
+		case "replay":
+			// a replayed tunnel id: T waits on node-a and is forwarded (the dedicated connection stays OPEN: data still flowing /
+			// draining); T ends on node-a and is registered again from node-c (listener K); a target connection for T arrives.
+			// It must reach node-c's listener or be refused - never node-a's.
+			if cur < 0 {
+				break
+			}
+			nfwd++
+			tid := fmt.Sprintf("replay-%d", nfwd)
+			kc := (cur + 1 + o.K%2) % 3
+			must(w.tables[0].RegisterNodeAddress("node-c", listeners[kc].Addr().String()))
+			forward := func() (int, fwdHit, error) {
+				srv, cli := net.Pipe()
+				go io.Copy(io.Discard, cli)
+				conn, err := smB.CreateConnection(srv, srv)
+				must(err)
+				ferr := session.VerifHandleCrossNodeTarget(smB, tid, "m", conn, srv)
+				select {
+				case hit := <-hits:
+					return hit.listener, hit, ferr
+				case <-time.After(700 * time.Millisecond):
+					return -1, fwdHit{}, ferr
+				}
+			}
+			must(w.tables[0].RegisterWaitingTunnel(bg, &tunnel.WaitingState{TunnelID: tid, MappingID: "m", SourceNodeID: "node-a"}))
+			g1, _, e1 := forward()
+			_ = w.tables[0].RemoveWaitingTunnel(bg, tid)
+			must(w.tables[1].RegisterWaitingTunnel(bg, &tunnel.WaitingState{TunnelID: tid, MappingID: "m", SourceNodeID: "node-c"}))
+			g2, h2, e2 := forward()
+			out.Judged++
+			out.Dials = append(out.Dials, g1, g2)
+			out.Want = append(out.Want, cur, kc)
+			out.Events = append(out.Events, fmt.Sprintf("tunnel %s: first life on node-a dialled #%d (%v); replayed from node-c (#%d): dialled #%d (%v)", tid, g1, e1, kc, g2, e2))
+			if g1 != cur {
+				fail(i, "forward-lost", fmt.Sprintf("op #%d on %s: first life of %s was dialled at #%d, registered #%d", i, c.Backend, tid, g1, cur))
+			} else if g2 >= 0 && g2 != kc {
+				fail(i, "forward-reuses-connection-to-stale-node", fmt.Sprintf("op #%d on %s: tunnel id %s waited on node-a (listener #%d) and was forwarded there; it ended and was registered again from node-c (listener #%d); LookupWaitingTunnel answers node-c, but the target connection's TargetReady for %q arrived at listener #%d - the node of the id's FIRST life", i, c.Backend, tid, cur, kc, h2.tunnel, g2))
+			}
+			mgr.CloseTunnel(tid)
+			_ = w.tables[1].RemoveWaitingTunnel(bg, tid)
 		default:
 			panic("forward: unknown op " + o.Op)
 		}
